@@ -1,4 +1,5 @@
 From Verif Require Import Base.Common Model.C15.
+From Verif Require Export Proofs.C15_sweep.
 From Coq Require Import Arith PeanoNat.
 
 (* ------------------------------------------------------------------ small facts *)
